@@ -1,5 +1,6 @@
 import PgFdr.Model.C07
 import PgFdr.Proofs.C07
+import PgFdr.Proofs.C07Stream
 
 /-!
 # C07 — results are reproducible across processes, hash seeds and repeated calls
@@ -97,5 +98,169 @@ theorem pipeline_calls_independent (cfg : Pipeline.Config) (inps : List Pipeline
       have hs : s = [] := Pipeline.runFrom_seen cfg i r s h
       subst hs
       simp only []; rw [ih]
+
+/-! ## The command line: methods in the order given, one random stream
+
+Property text: "Given the same input files and options, the command-line tool (which always uses the same random
+seed) writes byte-identical output in every process, whatever the interpreter's string-hash seed."
+
+`run_picked_group_fdr` seeds numpy once and runs the methods of `--methods` one after the other on that one
+generator, so WHICH permutations a method draws depends on what was drawn before it.  In the glue model
+(`Model/Cli.lean`, tied to the real `main(argv)` by `harness/cli_model.py`) the methods are the comma-separated list
+in the order given (`methodsOfArg`; `cliRun` walks `inp.methods`; no set, no dict), and in the stream form
+(`Model/C07Stream.lean`, tied to the real run by the `cli_stream` cases of `harness/props/C07.py`: the permutations
+are recorded at PROCESS level, in the order drawn) method `k` draws `need` permutations starting at
+`offset … k`, the sum of what the methods mentioned BEFORE it on the command line drew.  The theorems below say that
+nothing else enters a written table: the `i`-th table is a function of the command line and of the stream up to the
+point where the `i`-th method stops; the outcome of method `i` as a function of ITS permutations is the one of
+`C18.cli_methods_independent` (same method alone, same recorded parameters, same table).  A processing order that
+depends on anything but the command line (a `set` of names, say) is not expressible here; the correspondence and the
+oracle of the harness (each written table equals the recomputation in command-line order under `np.random.seed(1)`)
+are what tie the real tool to this. -/
+open PgFdr.Cli
+
+/-- the method loop runs the methods of `--methods` in the order given, once per mention: a completed run holds
+    exactly one entry per mention, and a table at position `i` was written by the `i`-th name -/
+theorem cli_methods_in_command_line_order (inp : CliInput) (os : List (Option CliTable))
+    (h : cliOutcomes inp = .ok os) :
+    os.length = inp.methods.length ∧
+    ∀ (i : Nat) (t : CliTable), os[i]? = some (some t) → inp.methods[i]? = some t.method := by
+  obtain ⟨env, cfgs, -, hlen, hos, hall⟩ := outcomes_spec inp os h
+  refine ⟨hos, ?_⟩
+  intro i t hi
+  have hilt : i < inp.methods.length := by
+    rw [← hos]
+    rcases Nat.lt_or_ge i os.length with h | h
+    · exact h
+    · rw [List.getElem?_eq_none_iff.mpr h] at hi; cases hi
+  have hc : cfgs[i]? = some cfgs[i] := List.getElem?_eq_getElem (by omega)
+  obtain ⟨o, hoi, hrun⟩ := hall i _ _ (List.getElem?_eq_getElem hilt) hc
+  rw [hi] at hoi
+  have ho : o = some t := (Option.some.inj hoi).symm
+  subst ho
+  obtain ⟨-, -, -, -, -, -, -, -, -, -, hmeth, -, -, -⟩ := runMethod_table inp env _ _ _ _ t hrun
+  rw [hmeth]
+  exact List.getElem?_eq_getElem hilt
+
+/-- hence the tables are written in command-line order: their method names form a subsequence of `--methods`
+    (methods without an input file of their type write nothing) -/
+theorem cli_tables_in_command_line_order (inp : CliInput) (ts : List CliTable) (h : cliRun inp = .ok ts) :
+    (ts.map (·.method)).Sublist inp.methods := by
+  unfold cliRun at h
+  cases hos : cliOutcomes inp with
+  | error e => rw [hos] at h; simp at h
+  | ok os =>
+    rw [hos] at h
+    simp only [Except.ok.injEq] at h
+    subst h
+    obtain ⟨hlen, hall⟩ := cli_methods_in_command_line_order inp os hos
+    exact filterMap_methods_sublist os inp.methods hlen hall
+
+/-- "the i-th table depends only on the inputs and on the permutations drawn by methods 0..i in command-line order":
+    in a completed run on the process's stream `s`, the entry at position `i` is the outcome of `run_method` for the
+    `i`-th name of `--methods` and its configuration, with that method's other recorded parameters, on exactly the
+    permutations `s[offset i … offset i + need)` — where `offset i` adds up what the methods at positions `0..i-1` of
+    the command line draw (`need`: 0 skipped, 2 one competition, 4 with a rescue step).  Every quantity on the right is
+    a function of the command line (lists in the order given) and of the stream. -/
+theorem stream_table_reads_own_slice (inp : CliInput) (s : Stream) (os : List (Option CliTable))
+    (h : streamOutcomes inp s = .ok os) :
+    ∃ (env : Env) (cfgs : List C18.Cfg), setup inp = .ok (env, cfgs) ∧ cfgs.length = inp.methods.length ∧
+      os.length = inp.methods.length ∧
+      ∀ (i : Nat) (name : String) (c : C18.Cfg), inp.methods[i]? = some name → cfgs[i]? = some c →
+        ∃ o, os[i]? = some o ∧
+          Cli.runMethod inp env (decide (cfgs.length > 1)) name c
+            { inp.recs.getD i default with
+              shuffles := (s.drop (offset (cfgs.map (need inp)) i)).take (need inp c) } = .ok o := by
+  obtain ⟨env, cfgs, hs, hlen, hos, hall⟩ := outcomes_spec (withStream inp s) os h
+  rw [setup_withStream] at hs
+  refine ⟨env, cfgs, hs, hlen, hos, ?_⟩
+  intro i name c hn hc
+  obtain ⟨o, hoi, hrun⟩ := hall i name c hn hc
+  refine ⟨o, hoi, ?_⟩
+  rw [runMethod_withStream] at hrun
+  have hi : i < cfgs.length := by
+    rcases Nat.lt_or_ge i cfgs.length with h | h
+    · exact h
+    · rw [List.getElem?_eq_none_iff.mpr h] at hc; cases hc
+  have hrec : (withStream inp s).recs.getD i default =
+      { inp.recs.getD i default with
+        shuffles := (s.drop (offset (cfgs.map (need inp)) i)).take (need inp c) } := by
+    show (streamRecs inp (needs inp) s).getD i default = _
+    rw [needs_of_setup inp env cfgs hs, streamRecs_getD inp _ s i (by simpa using hi)]
+    simp [slice, List.getD, hc]
+  rw [← hrec]
+  exact hrun
+
+/-- two streams that agree up to the point where the `i`-th method of the command line stops give the same `i`-th
+    table (and the same decision whether one is written): what later methods draw, and anything beyond, is never read -/
+theorem stream_table_depends_on_prefix (inp : CliInput) (s s' : Stream) (os os' : List (Option CliTable))
+    (h : streamOutcomes inp s = .ok os) (h' : streamOutcomes inp s' = .ok os') (i : Nat)
+    (hp : s.take (offset (needs inp) (i + 1)) = s'.take (offset (needs inp) (i + 1))) :
+    os[i]? = os'[i]? := by
+  obtain ⟨env, cfgs, hs, hlen, hos, hall⟩ := stream_table_reads_own_slice inp s os h
+  obtain ⟨env', cfgs', hs', -, hos', hall'⟩ := stream_table_reads_own_slice inp s' os' h'
+  rw [hs] at hs'
+  simp only [Except.ok.injEq, Prod.mk.injEq] at hs'
+  obtain ⟨rfl, rfl⟩ := hs'
+  rcases Nat.lt_or_ge i inp.methods.length with hi | hi
+  · have hc : cfgs[i]? = some cfgs[i] := List.getElem?_eq_getElem (by omega)
+    obtain ⟨o, hoi, hrun⟩ := hall i _ _ (List.getElem?_eq_getElem hi) hc
+    obtain ⟨o', hoi', hrun'⟩ := hall' i _ _ (List.getElem?_eq_getElem hi) hc
+    have hsl : slice s (cfgs.map (need inp)) i = slice s' (cfgs.map (need inp)) i := by
+      rw [← slice_take s _ i _ (Nat.le_refl _), ← slice_take s' _ i _ (Nat.le_refl _),
+        ← needs_of_setup inp env cfgs hs, hp]
+    have hnd : (cfgs.map (need inp)).getD i 0 = need inp cfgs[i] := by simp [List.getD, hc]
+    simp only [slice, hnd] at hsl
+    rw [hsl, hrun'] at hrun
+    rw [hoi, hoi', Except.ok.inj hrun]
+  · rw [List.getElem?_eq_none_iff.mpr (by omega), List.getElem?_eq_none_iff.mpr (by omega)]
+
+/-- the run on a stream IS a run of the glue model (with the per-method records cut out of the stream), so every
+    theorem about `cliRun` (`C18.cli_tables_satisfy_guarantees`, `C18.cli_methods_independent`, …) applies to it -/
+theorem stream_run_is_cli_run (inp : CliInput) (s : Stream) :
+    streamRun inp s = cliRun { inp with recs := streamRecs inp (needs inp) s } := rfl
+
+/-! Non-vacuity: the completed two-method run of `Proofs/Cli.lean` (`demo_cli_run`: `--methods
+savitski_no_remap,picked_protein_group_no_remap`, the second with a rescue step) is the run on the stream of its six
+permutations — the first method draws two, the second the next four — and completes with both tables. -/
+
+private def demoStream : Stream := [[0, 1], [0, 1], [0, 1], [0, 1], [0, 2, 1], [0, 1]]
+
+private theorem demo_needs : needs demoRun = [2, 4] := by
+  rw [needs_of_setup demoRun _ _ demo_setup]
+  decide +kernel
+
+private theorem demo_withStream : withStream demoRun demoStream = demoRun := by
+  unfold withStream
+  rw [demo_needs]
+  rfl
+
+example : offset [2, 4] 0 = 0 ∧ offset [2, 4] 1 = 2 ∧ offset [2, 4] 2 = 6 ∧
+    slice demoStream [2, 4] 1 = [[0, 1], [0, 1], [0, 2, 1], [0, 1]] := by decide
+
+example : ∃ t1 t2, streamRun demoRun demoStream = .ok [t1, t2] ∧ t1.method = "savitski_no_remap" ∧
+    t2.method = "picked_protein_group_no_remap" ∧ t2.run.pass2.isSome = true ∧
+    ([t1, t2].map (·.method)).Sublist demoRun.methods := by
+  obtain ⟨t1, t2, h, h1, -, -, h2, -, -, -, -, -, h3⟩ := demo_cli_run
+  refine ⟨t1, t2, ?_, h1, h2, h3, ?_⟩
+  · unfold streamRun; rw [demo_withStream]; exact h
+  · exact cli_tables_in_command_line_order demoRun _ h
+
+/-- the hypotheses of `stream_table_depends_on_prefix` are satisfiable with streams that differ: anything may follow
+    the six permutations the run draws -/
+example : ∃ os os', streamOutcomes demoRun demoStream = .ok os ∧
+    streamOutcomes demoRun (demoStream ++ [[1, 0]]) = .ok os' ∧ os[1]? = os'[1]? ∧ os.length = 2 := by
+  have hw : withStream demoRun (demoStream ++ [[1, 0]]) = demoRun := by
+    unfold withStream
+    rw [demo_needs]
+    rfl
+  obtain ⟨t1, t2, h, -⟩ := demo_cli_run
+  cases hc : cliOutcomes demoRun with
+  | error e => unfold cliRun at h; rw [hc] at h; simp at h
+  | ok os =>
+    refine ⟨os, os, ?_, ?_, rfl, ?_⟩
+    · unfold streamOutcomes; rw [demo_withStream]; exact hc
+    · unfold streamOutcomes; rw [hw]; exact hc
+    · exact (cli_methods_in_command_line_order demoRun os hc).1
 
 end PgFdr.C07
